@@ -54,10 +54,12 @@ Theorem C12_shape : PipelineShape.shape_ok = true /\ AppEngineShape.shape_ok = t
 Proof. split; vm_compute; reflexivity. Qed.
 
 (* ---- non-vacuity: a run of the application engine cancelled in the middle (after 7 rounds) ---- *)
+(* scheduling policy of the example run: the request source's input never stalls *)
+Definition no_stall (l : AppEngine.loc) : bool := match l with AppEngine.Src _ => true | _ => false end.
 Definition ex_reqs := [(0, false); (1, true); (2, false); (3, false); (4, false); (5, false)].
 Definition ex_out (id : nat) := match id with 0 | 4 => SPos | 3 => SFail | _ => SNeg end.
-Definition ex_mid := exec (AppEngine.beh 3 ex_out) (fun _ => 0) (rounds 7 9 ++ [Cancel]) (AppEngine.init 3 1 ex_reqs).
-Definition ex_end := exec (AppEngine.beh 3 ex_out) (fun _ => 0) (rounds 30 9) ex_mid.
+Definition ex_mid := exec (AppEngine.beh 3 ex_out) (fun _ => 0) no_stall (rounds 7 9 ++ [Cancel]) (AppEngine.init 3 1 ex_reqs).
+Definition ex_end := exec (AppEngine.beh 3 ex_out) (fun _ => 0) no_stall (rounds 30 9) ex_mid.
 Example C12_ex_cancelled_midway :
   reachable (AppEngine.beh 3 ex_out) (AppEngine.init 3 1 ex_reqs) ex_mid /\ cancelled ex_mid = true /\
   procs ex_mid !! EngineCancel.p_caller 3 = Some MWait.
